@@ -8,7 +8,10 @@
 // replay vector).  Go 1.14 syntax only.
 package zzverif
 
-import "fmt"
+import (
+	"fmt"
+	"runtime"
+)
 
 // Harnesses is the registry: name -> harness(shape parameters).
 var Harnesses = map[string]func(p []int){}
@@ -27,6 +30,15 @@ type assertFailed struct{ msg string }
 type vectorExhausted struct{}
 
 func next() uint64 {
+	if raceStates != nil {
+		st := raceStates[goid()]
+		if st.pos >= len(replayVec) {
+			panic(vectorExhausted{})
+		}
+		v := replayVec[st.pos]
+		st.pos++
+		return v
+	}
 	if replayPos >= len(replayVec) {
 		panic(vectorExhausted{})
 	}
@@ -107,9 +119,17 @@ func vProp(id string) bool {
 	return false
 }
 func vCover(b bool, tag string) {}
-func vSite(s string)            { Obs["site"] = fmt.Sprintf("%x", s) }
-func vLog(x interface{})        {}
+func vSite(s string) {
+	if raceStates != nil {
+		return
+	}
+	Obs["site"] = fmt.Sprintf("%x", s)
+}
+func vLog(x interface{}) {}
 func vObserve(tag string, b []byte) {
+	if raceStates != nil {
+		return
+	}
 	h := fmt.Sprintf("%x", b)
 	if prev, ok := Obs[tag]; ok {
 		h = prev + "|" + h
@@ -144,6 +164,71 @@ func RunNative(name string, args []int, vec []uint64, props []string) (outcome s
 	}()
 	h(args)
 	return "ok", Obs
+}
+
+// ---- concurrent native replay (C12 use-after-release confirmation) ----
+//
+// RaceNative runs one harness vector in g goroutines, n times each, in a
+// binary built with -race.  The intrinsics keep their cursor per
+// goroutine (a table filled before the goroutines are released and
+// read-only afterwards, so that the harness itself adds no
+// synchronisation and no races); observations are not recorded and
+// failed assertions are ignored: the verdict is the race detector's
+// report on the library code.
+
+type raceState struct{ pos int }
+
+var raceStates map[int64]*raceState
+
+func goid() int64 {
+	var buf [64]byte
+	n := runtime.Stack(buf[:], false)
+	// "goroutine 123 ["
+	var id int64
+	for i := len("goroutine "); i < n && buf[i] >= '0' && buf[i] <= '9'; i++ {
+		id = id*10 + int64(buf[i]-'0')
+	}
+	return id
+}
+
+func RaceNative(name string, args []int, vec []uint64, props []string, g, n int) string {
+	h := Harnesses[name]
+	if h == nil {
+		return "noharness"
+	}
+	ActiveProps = props
+	replayVec = vec
+	resetGlobals()
+	ids := make(chan int64)
+	start := make(chan struct{})
+	done := make(chan struct{})
+	for i := 0; i < g; i++ {
+		go func() {
+			id := goid()
+			ids <- id
+			<-start
+			st := raceStates[id]
+			for k := 0; k < n; k++ {
+				st.pos = 0
+				func() {
+					defer func() { recover() }()
+					h(args)
+				}()
+			}
+			done <- struct{}{}
+		}()
+	}
+	m := map[int64]*raceState{}
+	for i := 0; i < g; i++ {
+		m[<-ids] = &raceState{}
+	}
+	raceStates = m
+	close(start)
+	for i := 0; i < g; i++ {
+		<-done
+	}
+	raceStates = nil
+	return "ok"
 }
 
 // ---- byte-level reference oracles (DESIGN §4) ----
